@@ -464,7 +464,7 @@ func (e *Engine) lookup(st *State, fr *Frame, in *ssa.Lookup) bool {
 						idxI = i
 					}
 				}
-				hasT := st.declare(fmt.Sprintf("maphas.%s.%s", sanitize(obj.Name), sanitize(key)), SBool)
+				hasT := e.structHasTerm(st, obj, idx)
 				st2 := st.clone()
 				st2.assume(Not(hasT))
 				st.assume(hasT)
@@ -782,6 +782,7 @@ func (e *Engine) typeAssert(st *State, fr *Frame, in *ssa.TypeAssert) bool {
 
 type rangeIter struct {
 	arbitrary *types.Map
+	obj       *MapObj
 	keys []Term
 	vals []Value
 	pos  int
@@ -806,6 +807,7 @@ func (e *Engine) rangeInit(st *State, fr *Frame, in *ssa.Range) bool {
 		} else if obj.Struct {
 			// input map with structured values: arbitrary-entry iteration under the generic loop rule
 			it.arbitrary = obj.Typ
+			it.obj = obj
 		} else if obj.Has.S != "" {
 			st.incomplete = "range over a presence-tracked scalar map is not modelled at " + e.pos(in.Pos())
 			e.endPath(st)
@@ -835,7 +837,10 @@ func (e *Engine) rangeNext(st *State, fr *Frame, in *ssa.Next) bool {
 		return e.symRangeNext(st, fr, in, it)
 	}
 	if it.arbitrary != nil {
-		if e.loopInvariants(fr.fn, headerOrdinal(in.Block())) == nil {
+		if e.loopInvariants(fr.fn, headerOrdinal(in.Block())) == nil && !e.autoCut[fmt.Sprintf("%s/%d", fr.fn.String(), in.Block().Index)] {
+			if e.autoCutWant != nil {
+				e.autoCutWant[fmt.Sprintf("%s/%d", fr.fn.String(), in.Block().Index)] = true
+			}
 			st.incomplete = fmt.Sprintf("range over an input map without a loop invariant (loop %d of %s) at %s", headerOrdinal(in.Block()), fr.fn.Name(), e.pos(in.Pos()))
 			e.endPath(st)
 			return false
@@ -851,7 +856,12 @@ func (e *Engine) rangeNext(st *State, fr *Frame, in *ssa.Next) bool {
 		st2 := st.clone()
 		st2.wregs(fr)[in] = VTuple{[]Value{sym(TFalse), e.zeroOf(tt.At(1).Type()), e.zeroOf(tt.At(2).Type())}}
 		e.runFrom(st2, fr, b, idxI+1)
-		st.wregs(fr)[in] = VTuple{[]Value{sym(TTrue), e.havoc(st, it.arbitrary.Key(), "rangekey"), e.havoc(st, it.arbitrary.Elem(), "rangeval")}}
+		rk := e.havoc(st, it.arbitrary.Key(), "rangekey")
+		if obj := it.obj; obj != nil {
+			// the key the iteration yields is a key of the map
+			st.assume(e.structHasTerm(st, obj, rk))
+		}
+		st.wregs(fr)[in] = VTuple{[]Value{sym(TTrue), rk, e.havoc(st, it.arbitrary.Elem(), "rangeval")}}
 		return true
 	}
 	// the iterator position is path state: keep it in the state's visits map keyed by iterator id
@@ -903,4 +913,17 @@ func (e *Engine) modularHere(ct *Contract) bool {
 		}
 	}
 	return false
+}
+
+// structHasTerm: "the structured input map has an entry for this key". For scalar keys it is one symbolic set per map
+// (so that contracts can quantify over keys); for composite keys one Bool per syntactic key.
+func (e *Engine) structHasTerm(st *State, obj *MapObj, key Value) Term {
+	if ks, ok := key.(VSym); ok && (ks.T.Sort == SStr || ks.T.Sort == SInt) {
+		set := SSSet
+		if ks.T.Sort == SInt {
+			set = SISet
+		}
+		return Select(st.declare("maphasset."+sanitize(obj.Name), set), ks.T, SBool)
+	}
+	return st.declare(fmt.Sprintf("maphas.%s.%s", sanitize(obj.Name), sanitize(showValue(key))), SBool)
 }
